@@ -8,8 +8,8 @@
 
      writer, one WritePacket call          state thread, one SetState call
        ReadPtr : c.mu.Lock; ptr := c.playPacketQueue      SOp : c.mu.Lock; wr.SetState(s);
-                 -- gate pq.readptr --                          ensurePlayPacketQueue(s)
-       DoWrite : ptr.Queue(p) or wr.WritePacket(p);             (activate | release; nil)
+                 -- gate pq.readptr --                          (activate | -- gate pq.release.begin --)
+       DoWrite : ptr.Queue(p) or wr.WritePacket(p);        SRelease : ReleaseQueue; queue := nil;
                  c.mu.Unlock; Flush                             c.mu.Unlock
 
    With Locked = TRUE the writer keeps c.mu from ReadPtr to the end of DoWrite
@@ -42,7 +42,7 @@ Threads == Writers \cup {S}
 MaxQ == Len(SOps) + 1
 
 VARIABLES prog,         \* [Writers -> Seq({"P","K"})]
-          pc,           \* [Threads -> {"idle", "ptr"}]
+          pc,           \* [Threads -> {"idle", "ptr", "rel"}]
           idx,          \* [Threads -> Nat] next operation (1-based)
           ptr,          \* [Writers -> 0..MaxQ] copied queue pointer (0 = nil)
           lock,         \* holder of c.mu or "none"
@@ -112,31 +112,48 @@ DoWrite(w) ==
     /\ IF Locked THEN lock' = "none" ELSE UNCHANGED lock
     /\ UNCHANGED <<prog, ptr, ph, q, nq>>
 
-\* SetState(s): entirely under c.mu
+\* SetState(s): entirely under c.mu.  Entering config, or leaving it with no queue, is one
+\* segment.  Leaving with a queue is two: up to the gate pq.release.begin (encoder already
+\* switched), then ReleaseQueue; c.playPacketQueue = nil; unlock.
 SOp ==
     /\ pc[S] = "idle" /\ idx[S] <= Len(SOps)
     /\ Locked => lock = "none"
     /\ Step(S)
-    /\ idx' = [idx EXCEPT ![S] = @ + 1]
     /\ IF SOps[idx[S]] = "enter"
          THEN /\ ph' = "config"
               /\ IF q = 0 THEN q' = nq + 1 /\ nq' = nq + 1 ELSE UNCHANGED <<q, nq>>
-              /\ UNCHANGED <<qc, wire>>
+              /\ idx' = [idx EXCEPT ![S] = @ + 1]
+              /\ UNCHANGED <<pc, lock>>
          ELSE /\ ph' = "play"
               /\ IF q # 0
-                   THEN /\ wire' = (IF closed THEN wire ELSE wire \o qc[q])
-                        /\ qc' = [qc EXCEPT ![q] = <<>>]
-                        /\ q' = 0
-                   ELSE UNCHANGED <<q, qc, wire>>
-              /\ UNCHANGED nq
-    /\ UNCHANGED <<prog, pc, ptr, lock, closed, why>>
+                   THEN /\ pc' = [pc EXCEPT ![S] = "rel"]      \* -- gate pq.release.begin --
+                        /\ IF Locked THEN lock' = S ELSE UNCHANGED lock
+                        /\ UNCHANGED idx
+                   ELSE /\ idx' = [idx EXCEPT ![S] = @ + 1]
+                        /\ UNCHANGED <<pc, lock>>
+              /\ UNCHANGED <<q, nq>>
+    /\ UNCHANGED <<prog, ptr, qc, wire, closed, why>>
 
-Next == SOp \/ \E w \in Writers : ReadPtr(w) \/ DoWrite(w)
+\* ReleaseQueue(bufferNoQueue, Flush); c.playPacketQueue = nil; c.mu.Unlock()
+SRelease ==
+    /\ pc[S] = "rel"
+    /\ Step(S)
+    /\ IF q # 0
+         THEN /\ wire' = (IF closed THEN wire ELSE wire \o qc[q])
+              /\ qc' = [qc EXCEPT ![q] = <<>>]
+              /\ q' = 0
+         ELSE UNCHANGED <<q, qc, wire>>
+    /\ pc' = [pc EXCEPT ![S] = "idle"]
+    /\ idx' = [idx EXCEPT ![S] = @ + 1]
+    /\ IF Locked THEN lock' = "none" ELSE UNCHANGED lock
+    /\ UNCHANGED <<prog, ptr, ph, nq, closed, why>>
+
+Next == SOp \/ SRelease \/ \E w \in Writers : ReadPtr(w) \/ DoWrite(w)
 
 Spec == Init /\ [][Next]_vars
 
 Quiescent == /\ \A w \in Writers : pc[w] = "idle" /\ idx[w] > Len(prog[w])
-             /\ idx[S] > Len(SOps)
+             /\ pc[S] = "idle" /\ idx[S] > Len(SOps)
 
 ----------------------------------------------------------------------------
 (* The property, on the model's state. *)
@@ -171,6 +188,11 @@ HeldInConfig ==
     [][\A w \in Writers :
          (pc[w] = "ptr" /\ pc'[w] = "idle" /\ prog[w][idx[w]] = "P" /\ ph = "config")
             => wire' = wire]_vars
+
+\* while held packets wait at the release gate nothing else reaches the wire: a later
+\* packet must not overtake them
+NoOvertake ==
+    [][(pc[S] = "rel" /\ pc'[S] = "rel" /\ q # 0 /\ qc[q] # <<>>) => wire' = wire]_vars
 
 Bounded == \A i \in 1..MaxQ : Len(qc[i]) <= Cap
 
